@@ -1,0 +1,38 @@
+//go:build verif
+
+package protoproducer
+
+import (
+	flowmessage "github.com/netsampler/goflow2/v2/pb"
+	"google.golang.org/protobuf/encoding/protowire"
+)
+
+// VerifPoisonPool is a verification hook (build tag verif): it puts n flow messages into the
+// message pool with every column, repeated field and custom (unknown) field set to garbage, so
+// that a check of message reuse does not depend on what sync.Pool happens to hand back.
+func VerifPoisonPool(n int) {
+	for i := 0; i < n; i++ {
+		m := &ProtoProducerMessage{}
+		g := uint32(0xdead0000 + i)
+		b := []byte{0xde, 0xad, 0xbe, 0xef, byte(i)}
+		m.FlowMessage = flowmessage.FlowMessage{
+			Type: flowmessage.FlowMessage_SFLOW_5, TimeReceivedNs: uint64(g), SequenceNum: g, SamplingRate: uint64(g),
+			SamplerAddress: b, TimeFlowStartNs: uint64(g), TimeFlowEndNs: uint64(g), Bytes: uint64(g), Packets: uint64(g),
+			SrcAddr: b, DstAddr: b, Etype: g, Proto: g, SrcPort: g, DstPort: g, InIf: g, OutIf: g, SrcMac: uint64(g),
+			DstMac: uint64(g), SrcVlan: g, DstVlan: g, VlanId: g, IpTos: g, ForwardingStatus: g, IpTtl: g, IpFlags: g,
+			TcpFlags: g, IcmpType: g, IcmpCode: g, Ipv6FlowLabel: g, FragmentId: g, FragmentOffset: g, SrcAs: g, DstAs: g,
+			NextHop: b, NextHopAs: g, SrcNet: g, DstNet: g, BgpNextHop: b, BgpCommunities: []uint32{g, g}, AsPath: []uint32{g},
+			MplsTtl: []uint32{g}, MplsLabel: []uint32{g, g, g}, MplsIp: [][]byte{b}, ObservationDomainId: g, ObservationPointId: g,
+			LayerStack: []flowmessage.FlowMessage_LayerStack{flowmessage.FlowMessage_Custom}, LayerSize: []uint32{g},
+			Ipv6RoutingHeaderAddresses: [][]byte{b, b}, Ipv6RoutingHeaderSegLeft: g,
+		}
+		var unk []byte
+		unk = protowire.AppendTag(unk, 4242, protowire.VarintType)
+		unk = protowire.AppendVarint(unk, uint64(g))
+		unk = protowire.AppendTag(unk, 1001, protowire.BytesType)
+		unk = protowire.AppendString(unk, "poison")
+		m.ProtoReflect().SetUnknown(unk)
+		m.skipDelimiter = i%2 == 1
+		protoMessagePool.Put(m)
+	}
+}
